@@ -714,6 +714,24 @@ func (s *DB) getHistoricRootsAndNodes(
 			}
 		}
 	}
+	if len(candidateBlocks) > 0 {
+		// Node objects are content-addressed: a tree that returned to earlier content links
+		// objects of its own history again. Whatever this (retained) tree links must stay.
+		empty, err := crdt.Load(ctx, s.crdt.Config, nil, emptyRoot(time.Time{}, s.crdt.Mast.BranchFactor(), s.crdt.Config))
+		if err != nil {
+			return nil, nil, fmt.Errorf("empty tree: %w", err)
+		}
+		err = s.crdt.Mast.DiffLinks(ctx, empty.Mast,
+			func(removed bool, link interface{}) (bool, error) {
+				if ls, ok := link.(string); ok && !removed {
+					delete(candidateBlocks, ls)
+				}
+				return true, nil
+			})
+		if err != nil {
+			return nil, nil, fmt.Errorf("live links: %w", err)
+		}
+	}
 	nodes = make([]string, 0, len(candidateBlocks))
 	for k := range candidateBlocks {
 		nodes = append(nodes, k)
